@@ -4,8 +4,27 @@ From PV Require Import Base.Prelude Spec.BuildSpec Model.Build Model.BuildInst I
   Generated.T_files_build Generated.T_files_file Generated.T_build_do.
 
 (* ---------- pins: the regenerated shape facts the model relies on ---------- *)
-Lemma pin_build_sections : build_sections = map section_name all_sections.
-Proof. reflexivity. Qed.
+(* the tuple of the section loop names each of the six sections exactly once - in ANY order *)
+Fixpoint names_to_sections (names : list bytes) : option (list section) :=
+  match names with
+  | [] => Some []
+  | n :: r => match section_of_name n, names_to_sections r with
+              | Some s, Some l => Some (s :: l)
+              | _, _ => None
+              end
+  end.
+
+Definition count_section (s : section) (l : list section) : nat :=
+  length (filter (section_eqb s) l).
+
+Definition sections_once (names : list bytes) : bool :=
+  match names_to_sections names with
+  | Some l => forallb (fun s => Nat.eqb (count_section s l) 1) all_sections
+  | None => false
+  end.
+
+Lemma pin_build_sections : sections_once build_sections = true.
+Proof. vm_compute. reflexivity. Qed.
 
 Lemma pin_build_endswith_consts :
   build_endswith_consts = [".p8"%bs : bytes; ".p8.png"%bs : bytes; ".p8"%bs : bytes; ".p8.png"%bs : bytes;
@@ -186,6 +205,146 @@ Qed.
 
 End Step.
 
+(* ---------- the loop over any list of distinct sections ---------- *)
+Lemma section_eqb_eq a b : section_eqb a b = true <-> a = b.
+Proof. destruct a, b; cbn; split; intros H; try reflexivity; try discriminate H. Qed.
+
+Lemma section_eqb_refl a : section_eqb a a = true.
+Proof. destruct a; reflexivity. Qed.
+
+Lemma section_of_name_inv n s : section_of_name n = Some s -> n = section_name s.
+Proof.
+  unfold section_of_name.
+  repeat match goal with
+         | |- context [if zlist_eqb n ?c then _ else _] =>
+           let E := fresh "E" in destruct (zlist_eqb n c) eqn:E;
+           [apply zlist_eqb_eq in E; intros [= <-]; exact E|]
+         end.
+  discriminate.
+Qed.
+
+Lemma names_to_sections_map names l : names_to_sections names = Some l -> names = map section_name l.
+Proof.
+  revert l. induction names as [|n names IH]; intros l; cbn.
+  - intros [= <-]. reflexivity.
+  - destruct (section_of_name n) as [s|] eqn:E; [|discriminate].
+    destruct (names_to_sections names) as [l'|]; [|discriminate].
+    intros [= <-]. cbn. f_equal; [apply section_of_name_inv; exact E | apply IH; reflexivity].
+Qed.
+
+Lemma count_in s l : In s l <-> (count_section s l > 0)%nat.
+Proof.
+  unfold count_section. induction l as [|x l IH]; cbn.
+  - split; [tauto | lia].
+  - destruct (section_eqb s x) eqn:E; cbn [length].
+    + apply section_eqb_eq in E. subst. split; [lia | auto].
+    + rewrite <- IH. split; [intros [H | H]; [subst; rewrite section_eqb_refl in E; discriminate | exact H] | auto].
+Qed.
+
+Lemma count_one_nodup l : (forall s, (count_section s l <= 1)%nat) -> NoDup l.
+Proof.
+  induction l as [|x l IH]; intros H; constructor.
+  - intros Hin. apply count_in in Hin. specialize (H x). unfold count_section in *. cbn in H.
+    rewrite section_eqb_refl in H. cbn [length] in H. lia.
+  - apply IH. intros s. specialize (H s). unfold count_section in *. cbn in H.
+    destruct (section_eqb s x); cbn [length] in H; lia.
+Qed.
+
+Lemma sections_once_spec names :
+  sections_once names = true ->
+  exists l, names = map section_name l /\ NoDup l /\ forall s, In s l.
+Proof.
+  unfold sections_once. destruct (names_to_sections names) as [l|] eqn:E; [|discriminate].
+  intros H. exists l. split; [apply names_to_sections_map; exact E|].
+  rewrite forallb_forall in H.
+  assert (Hc : forall s, count_section s l = 1%nat).
+  { intros s. apply Nat.eqb_eq, H. destruct s; cbn; tauto. }
+  split.
+  - apply count_one_nodup. intros s. rewrite Hc. lia.
+  - intros s. apply count_in. rewrite Hc. lia.
+Qed.
+
+Lemma secs_ext {A} (x y : secs A) : (forall s, sec_get s x = sec_get s y) -> x = y.
+Proof.
+  intros H. destruct x, y.
+  pose proof (H SLua); pose proof (H SGfx); pose proof (H SGff); pose proof (H SMap); pose proof (H SSfx); pose proof (H SMusic).
+  cbn in *. congruence.
+Qed.
+
+Section Loop.
+Context {A : Type}.
+Variable w : world A.
+Variable args : build_args.
+
+Definition set_section (s : section) (v : A) (c : cart A) : cart A :=
+  mkCart (sec_set s v (c_secs c)) (c_label c) (c_version c).
+
+(* the loop as a fold of the rule over a list of sections *)
+Fixpoint fold_chosen (ss : list section) (acc : cart A) : option (cart A) :=
+  match ss with
+  | [] => Some acc
+  | s :: r =>
+    match chosen_cur w args (sec_get s (c_secs acc)) s with
+    | Ok v => fold_chosen r (set_section s v acc)
+    | Err _ => None
+    end
+  end.
+
+Definition loop_now (names : list bytes) (result : cart A) : step A :=
+  build_loop build_endswith_consts build_empty_prefixes do_build_section_eq_consts w (namespace_now args)
+             (w_empty w) names result.
+
+Lemma loop_fold ss : forall acc,
+  match fold_chosen ss acc with
+  | Some c => loop_now (map section_name ss) acc = Continue c
+  | None => exists o, loop_now (map section_name ss) acc = Stop o /\ not_wrote o
+  end.
+Proof.
+  induction ss as [|s ss IH]; intros acc; cbn [fold_chosen map].
+  - reflexivity.
+  - unfold loop_now. cbn [build_loop].
+    pose proof (build_step_spec w args s acc) as H. unfold step_now in H.
+    destruct (chosen_cur w args (sec_get s (c_secs acc)) s) as [v|e].
+    + rewrite H. apply IH.
+    + destruct H as (o & -> & Ho). exists o. split; [reflexivity | exact Ho].
+Qed.
+
+(* what the fold computes, for distinct sections whose current values are still the previous ones *)
+Lemma fold_result prev ss : NoDup ss -> forall acc,
+  (forall s, In s ss -> sec_get s (c_secs acc) = sec_get s (c_secs prev)) ->
+  match fold_chosen ss acc with
+  | Some c => (forall s, In s ss -> chosen w args prev s = Ok (sec_get s (c_secs c)))
+              /\ (forall s, ~ In s ss -> sec_get s (c_secs c) = sec_get s (c_secs acc))
+              /\ c_label c = c_label acc /\ c_version c = c_version acc
+  | None => exists s e, In s ss /\ chosen w args prev s = Err e
+  end.
+Proof.
+  induction 1 as [|s ss Hnotin Hnd IH]; intros acc Hacc; cbn [fold_chosen].
+  - split; [intros s []|]. split; [reflexivity|]. split; reflexivity.
+  - assert (Hc : chosen w args prev s = chosen_cur w args (sec_get s (c_secs acc)) s).
+    { rewrite chosen_is_chosen_cur, (Hacc s (or_introl eq_refl)). reflexivity. }
+    destruct (chosen_cur w args (sec_get s (c_secs acc)) s) as [v|e] eqn:E.
+    + specialize (IH (set_section s v acc)).
+      assert (Hacc' : forall t, In t ss -> sec_get t (c_secs (set_section s v acc)) = sec_get t (c_secs prev)).
+      { intros t Ht. cbn. rewrite sec_get_set_other; [apply Hacc; right; exact Ht|].
+        destruct (section_eqb t s) eqn:Ets; [|reflexivity]. apply section_eqb_eq in Ets. subst. contradiction. }
+      specialize (IH Hacc').
+      destruct (fold_chosen ss (set_section s v acc)) as [c|].
+      * destruct IH as (I1 & I2 & I3 & I4). split; [|split; [|split]].
+        -- intros t [<- | Ht]; [|apply I1; exact Ht].
+           rewrite Hc. f_equal. rewrite (I2 s Hnotin). cbn. rewrite sec_get_set_same. reflexivity.
+        -- intros t Ht. rewrite I2 by (intros Hin; apply Ht; right; exact Hin).
+           cbn. apply sec_get_set_other.
+           destruct (section_eqb t s) eqn:Ets; [|reflexivity]. apply section_eqb_eq in Ets. subst.
+           exfalso. apply Ht. left. reflexivity.
+        -- rewrite I3. reflexivity.
+        -- rewrite I4. reflexivity.
+      * destruct IH as (t & e & Ht & He). exists t, e. split; [right; exact Ht | exact He].
+    + exists s, e. split; [left; reflexivity | exact Hc].
+Qed.
+
+End Loop.
+
 (* ---------- the whole command ---------- *)
 Theorem build_select {A} (w : world A) (args : build_args) :
   spec_view_now w (b_out args) (do_build_now w (namespace_now args)) = build_spec w args.
@@ -200,55 +359,39 @@ Proof.
   { reflexivity. }
   destruct (if w_exists w (b_out args) then w_cart w (b_out args) else Ok (w_empty w)) as [prev|e].
   2:{ reflexivity. }
-  rewrite pin_build_sections. cbn [map all_sections build_loop].
-  rewrite !chosen_is_chosen_cur.
-  change (build_step build_endswith_consts build_empty_prefixes do_build_section_eq_consts w (namespace_now args) (w_empty w))
-    with (step_now w args).
-  (* lua *)
-  pose proof (build_step_spec w args SLua prev) as H.
-  destruct (chosen_cur w args (sec_get SLua (c_secs prev)) SLua) as [v1|e1].
-  2:{ destruct H as (o & -> & Ho). destruct o; [reflexivity | reflexivity | destruct Ho]. }
-  rewrite H; clear H.
-  (* gfx *)
-  match goal with |- context [step_now w args (section_name SGfx) ?r] => pose proof (build_step_spec w args SGfx r) as H end.
-  cbn [sec_get sec_set c_secs c_label c_version x_lua x_gfx x_gff x_map x_sfx x_music] in H |- *.
-  destruct (chosen_cur w args (x_gfx (c_secs prev)) SGfx) as [v2|e2].
-  2:{ destruct H as (o & -> & Ho). destruct o; [reflexivity | reflexivity | destruct Ho]. }
-  rewrite H; clear H.
-  (* gff *)
-  match goal with |- context [step_now w args (section_name SGff) ?r] => pose proof (build_step_spec w args SGff r) as H end.
-  cbn [sec_get sec_set c_secs c_label c_version x_lua x_gfx x_gff x_map x_sfx x_music] in H |- *.
-  destruct (chosen_cur w args (x_gff (c_secs prev)) SGff) as [v3|e3].
-  2:{ destruct H as (o & -> & Ho). destruct o; [reflexivity | reflexivity | destruct Ho]. }
-  rewrite H; clear H.
-  (* map *)
-  match goal with |- context [step_now w args (section_name SMap) ?r] => pose proof (build_step_spec w args SMap r) as H end.
-  cbn [sec_get sec_set c_secs c_label c_version x_lua x_gfx x_gff x_map x_sfx x_music] in H |- *.
-  destruct (chosen_cur w args (x_map (c_secs prev)) SMap) as [v4|e4].
-  2:{ destruct H as (o & -> & Ho). destruct o; [reflexivity | reflexivity | destruct Ho]. }
-  rewrite H; clear H.
-  (* sfx *)
-  match goal with |- context [step_now w args (section_name SSfx) ?r] => pose proof (build_step_spec w args SSfx r) as H end.
-  cbn [sec_get sec_set c_secs c_label c_version x_lua x_gfx x_gff x_map x_sfx x_music] in H |- *.
-  destruct (chosen_cur w args (x_sfx (c_secs prev)) SSfx) as [v5|e5].
-  2:{ destruct H as (o & -> & Ho). destruct o; [reflexivity | reflexivity | destruct Ho]. }
-  rewrite H; clear H.
-  (* music *)
-  match goal with |- context [step_now w args (section_name SMusic) ?r] => pose proof (build_step_spec w args SMusic r) as H end.
-  cbn [sec_get sec_set c_secs c_label c_version x_lua x_gfx x_gff x_map x_sfx x_music] in H |- *.
-  destruct (chosen_cur w args (x_music (c_secs prev)) SMusic) as [v6|e6].
-  2:{ destruct H as (o & -> & Ho). destruct o; [reflexivity | reflexivity | destruct Ho]. }
-  rewrite H; clear H.
-  (* the write *)
-  rewrite (ns_lua_format args), (ns_lua_minify args). cbn [truthy].
-  unfold spec_view_now, spec_view, stored_label, previous_label, is_p8png.
-  rewrite pin_formatters_order. cbn [formatter_for].
-  apply andb_false_iff in Eout.
-  destruct (ends_with (b_out args) ".p8.png"%bs) eqn:E2.
-  - cbn. destruct (w_exists w (b_out args)); reflexivity.
-  - destruct (ends_with (b_out args) ".p8"%bs) eqn:E1.
+  destruct (sections_once_spec _ pin_build_sections) as (ss & -> & Hnd & Hall).
+  change (build_loop build_endswith_consts build_empty_prefixes do_build_section_eq_consts w (namespace_now args)
+                     (w_empty w) (map section_name ss) prev) with (loop_now w args (map section_name ss) prev).
+  pose proof (loop_fold w args ss prev) as HL.
+  pose proof (fold_result w args prev ss Hnd prev (fun s _ => eq_refl)) as HF.
+  destruct (fold_chosen w args ss prev) as [c|].
+  - rewrite HL. destruct HF as (F1 & F2 & F3 & F4).
+    rewrite (F1 SLua (Hall _)), (F1 SGfx (Hall _)), (F1 SGff (Hall _)), (F1 SMap (Hall _)),
+            (F1 SSfx (Hall _)), (F1 SMusic (Hall _)).
+    rewrite (ns_lua_format args), (ns_lua_minify args). cbn [truthy].
+    unfold spec_view_now, spec_view, stored_label, previous_label, is_p8png.
+    rewrite pin_formatters_order. cbn [formatter_for].
+    assert (Hs : mkSecs (sec_get SLua (c_secs c)) (sec_get SGfx (c_secs c)) (sec_get SGff (c_secs c))
+                        (sec_get SMap (c_secs c)) (sec_get SSfx (c_secs c)) (sec_get SMusic (c_secs c)) = c_secs c).
+    { apply secs_ext. intros s. destruct s; reflexivity. }
+    rewrite Hs.
+    apply andb_false_iff in Eout.
+    destruct (ends_with (b_out args) ".p8.png"%bs) eqn:E2.
     + cbn. destruct (w_exists w (b_out args)); reflexivity.
-    + destruct Eout as [Eo | Eo]; discriminate Eo.
+    + destruct (ends_with (b_out args) ".p8"%bs) eqn:E1.
+      * cbn. rewrite F3. destruct (w_exists w (b_out args)); reflexivity.
+      * destruct Eout as [Eo | Eo]; discriminate Eo.
+  - destruct HL as (o & -> & Ho).
+    destruct HF as (s & e & _ & He).
+    assert (Hnone : match chosen w args prev SLua, chosen w args prev SGfx, chosen w args prev SGff,
+                          chosen w args prev SMap, chosen w args prev SSfx, chosen w args prev SMusic with
+                    | Ok a, Ok b, Ok c, Ok d, Ok e, Ok f => Some (mkSecs a b c d e f, previous_label w args prev)
+                    | _, _, _, _, _, _ => None
+                    end = None).
+    { destruct s; rewrite He;
+        repeat match goal with |- context [match chosen w args prev ?t with _ => _ end] =>
+                 destruct (chosen w args prev t) end; reflexivity. }
+    rewrite Hnone. destruct o; [reflexivity | reflexivity | destruct Ho].
 Qed.
 
 (* ---------- a loop iteration that stops never writes (for every namespace, also with flags) ---------- *)
